@@ -18,6 +18,46 @@ type b64Rec struct {
 	Sp      []string `json:"sp"`
 	Std     []string `json:"std"`
 	Expect  string   `json:"expect"`
+	// how every character of the JSON string is written: "plain" | "sol" | "u" | "U" (absent: all plain)
+	Esc      []string `json:"esc"`
+	EscClass string   `json:"escclass"`
+}
+
+// jsonSpelling writes the string as a JSON string literal, every character in the style the model names.
+func jsonSpelling(chars []string, esc []string) []byte {
+	var sb strings.Builder
+	sb.WriteByte('"')
+	for i, c := range chars {
+		if len(c) != 1 {
+			fatalf("jsonSpelling: %q is not one byte", c)
+		}
+		switch esc[i] {
+		case "plain":
+			q, _ := json.Marshal(c) // the character itself; the short escape for a control character
+			sb.Write(q[1 : len(q)-1])
+		case "sol":
+			if c != "/" {
+				fatalf("jsonSpelling: the solidus escape for %q", c)
+			}
+			sb.WriteString(`\/`)
+		case "u":
+			fmt.Fprintf(&sb, `\u%04x`, c[0])
+		case "U":
+			fmt.Fprintf(&sb, `\u%04X`, c[0])
+		default:
+			fatalf("jsonSpelling: unknown style %q", esc[i])
+		}
+	}
+	sb.WriteByte('"')
+	return []byte(sb.String())
+}
+
+// holder: a base64 value the way keys and signatures arrive, inside a larger document
+type b64Holder struct {
+	VerifyKeys map[string]struct {
+		Key spec.Base64Bytes `json:"key"`
+	} `json:"verify_keys"`
+	List []spec.Base64Bytes `json:"list"`
 }
 
 func init() {
@@ -32,17 +72,27 @@ func b64Replay(raw json.RawMessage) hx.Result {
 		fatalf("bad record: %v", err)
 	}
 	var sb strings.Builder
+	chars := make([]string, 0, len(r.Sp))
 	for _, e := range r.Sp {
 		switch e {
 		case "nl":
-			sb.WriteByte('\n')
+			e = "\n"
 		case "sp":
-			sb.WriteByte(' ')
-		default:
-			sb.WriteString(e)
+			e = " "
 		}
+		chars = append(chars, e)
+		sb.WriteString(e)
 	}
 	in := sb.String()
+	if r.Esc == nil {
+		r.Esc = make([]string, len(chars))
+		for i := range r.Esc {
+			r.Esc[i] = "plain"
+		}
+	}
+	if len(r.Esc) != len(chars) {
+		fatalf("record with %d characters and %d styles", len(chars), len(r.Esc))
+	}
 	std := strings.Join(r.Std, "")
 	want := make([]byte, len(r.Bytes))
 	for i, v := range r.Bytes {
@@ -56,9 +106,55 @@ func b64Replay(raw json.RawMessage) hx.Result {
 	var j spec.Base64Bytes
 	quoted, _ := json.Marshal(in)
 	jerr := json.Unmarshal(quoted, &j)
+	// the JSON string as the record spells it: the same string (JSON decoding comes first), so every way in that
+	// takes JSON gives what it gives for the plain spelling - whatever that is
+	written := jsonSpelling(chars, r.Esc)
+	var back string
+	if err := json.Unmarshal(written, &back); err != nil || back != in {
+		fatalf("concretiser: %s is not a JSON spelling of %q (%v)", written, in, err)
+	}
+	if r.EscClass != "" && r.EscClass != "plain" {
+		same := func(stage string, err error, got spec.Base64Bytes) *hx.Result {
+			if (err == nil) != (jerr == nil) || (err == nil && !bytes.Equal(got, j)) {
+				res := hx.Result{OK: false, Key: "C17/base64/" + r.Variant + "/json-spelling/" + stage,
+					What: fmt.Sprintf("the JSON string %s is the string %q written with escapes: %s gives %v, err=%v; for the plain spelling %s it gives %v, err=%v",
+						written, in, stage, []byte(got), err, quoted, []byte(j), jerr)}
+				return &res
+			}
+			return nil
+		}
+		var e1 spec.Base64Bytes
+		if res := same("unmarshal", json.Unmarshal(written, &e1), e1); res != nil {
+			return *res
+		}
+		var e2 spec.Base64Bytes
+		if res := same("scan-json", e2.Scan(spec.RawJSON(written)), e2); res != nil {
+			return *res
+		}
+		// inside a larger document: a struct field behind a map, and a list (the element before it is plain)
+		doc := []byte(`{"list":[` + string(quoted) + `,` + string(written) + `],"verify_keys":{"ed25519:a":{"key":` + string(written) + `}}}`)
+		var h b64Holder
+		herr := json.Unmarshal(doc, &h)
+		if res := same("in-struct", herr, h.VerifyKeys["ed25519:a"].Key); res != nil {
+			return *res
+		}
+		if herr == nil {
+			if len(h.List) != 2 {
+				fatalf("concretiser: the list of %s has %d elements", doc, len(h.List))
+			}
+			if res := same("in-list", nil, h.List[1]); res != nil {
+				return *res
+			}
+		}
+		// a reused receiver
+		e3 := spec.Base64Bytes{9, 9, 9, 9, 9, 9, 9, 9, 9}
+		if res := same("unmarshal-reused", e3.UnmarshalJSON(written), e3); res != nil {
+			return *res
+		}
+	}
 	if r.Expect != "value" {
 		// nothing demanded beyond not crashing
-		return hx.Result{OK: true, NT: fmt.Sprintf("%s|free|decode=%v|json=%v", r.Variant, err == nil, jerr == nil)}
+		return hx.Result{OK: true, NT: fmt.Sprintf("%s|free|decode=%v|json=%v|esc=%s", r.Variant, err == nil, jerr == nil, r.EscClass)}
 	}
 	if err != nil || !bytes.Equal(d, want) {
 		return fail("decode", fmt.Sprintf("Decode gives %v, err=%v", []byte(d), err))
@@ -112,5 +208,5 @@ func b64Replay(raw json.RawMessage) hx.Result {
 	} else if strings.ContainsAny(in, "-_") {
 		special = "url-special"
 	}
-	return hx.Result{OK: true, NT: fmt.Sprintf("%s|value|len=%d|%s", r.Variant, len(want), special)}
+	return hx.Result{OK: true, NT: fmt.Sprintf("%s|value|len=%d|%s|esc=%s", r.Variant, len(want), special, r.EscClass)}
 }
